@@ -5,7 +5,8 @@ Three pieces:
      rule of scAdvance) with the scratch-built compiler's `-WTrt+sc` token dumps on generated
      one-line sources covering every first byte 0..255 with and without the escape character
      (a crash of the compiler is the answer FAULT);
-  2. deterministic probes of the exit status (255/256/257/512 errors under `-M no-emax`);
+  2. deterministic probes of the exit status (1 ... 1000 errors under `-M no-emax`) compared with
+     Model/Exit.lean;
   3. the fuzz search: random bytes, token-level mutants of ~40 seed sources, structure bombs
      (20 000-character lines, nesting depth 5 000), directive soups.  Every run is classified;
      faults get a signature from the top non-libc frames (gdb), every failing input is
@@ -23,12 +24,15 @@ MODELLED = ("scan.c: scanTokenCases (dispatch) scanWord scAdvance/scAdvance1 scS
             "generated keyword table; main.c/axlcomp.c: exit status = compFilesLoop's error total as the OS truncates it "
             "(not modelled: parser, macro expander, type checker, back end: covered by the search only)")
 THEOREMS = [("AldorVerif.Props.C07", "AldorVerif.C07." + t) for t in (
-    "keytag_index_safe_statement_refuted", "keytag_index_safe_of_lookup", "keytag_index_safe_partial",
+    "keytag_index_safe", "keytag_index_safe_of_lookup", "old_keylookup_out_of_range",
     "unescaped_word_start_ascii", "keylongest_index_safe", "keyinit_stores_in_range", "char_index_sites_covered",
-    "ctype_index_in_glibc_range", "exit_honest_statement_refuted", "exit_wrap_exact", "exit_honest_partial",
-    "exit_honest_of_clamp")]
+    "ctype_index_in_glibc_range", "exit_honest", "exit_honest_of_clamp", "exit_status_saturates", "exit_honest_files",
+    "old_exit_wraps")]
 
 TIMEOUT = 10
+FUZZ_BUDGET_S = {"quick": 100, "thorough": 3600}        # wall-clock budget of the random part of the search
+MINIMISE_BUDGET_S = {"quick": 45, "thorough": 600}
+CORR_BUDGET_S = {"quick": 45, "thorough": 900}
 ERR_RE = re.compile(rb"\((?:Error|Fatal Error)\)")
 WARN_RE = re.compile(rb"\((?:Warning|Remark|Note[^)]*)\)")
 
@@ -496,7 +500,7 @@ def _bomb_shapes():
 
 BOMBS = _bomb_shapes()
 BOMB_BY_NAME = {n: (f, inv) for n, f, inv in BOMBS}
-BOMB_DEPTHS = {"default": (5000, 20000), "errors": (255, 256, 257, 512), "lines": (5000, 50000),
+BOMB_DEPTHS = {"default": (5000, 20000), "errors": (1, 9, 255, 256, 257, 300, 512, 1000), "lines": (5000, 50000),
                "pile-stairs": (300, 1500), "pile-zigzag": (5000,), "pile-unindent": (300, 5000), "pile-deep-indent": (300, 1500),
                "macro-self": (1,), "include-self": (1,), "macro-nest": (300, 5000),
                "if-nest": (5000,), "if-open": (5000,), "endif-only": (5000,)}
@@ -567,9 +571,9 @@ def generate_cases(rng, thorough):
     cases = []
     seeds = load_seeds()
     fixed = _random.Random(20260930)
-    plan = [(fixed, 1), (rng, 1)] if not thorough else [(fixed, 1), (rng, 19)]
-    for r, mult in plan:
-        _random_cases(r, mult, seeds, cases)
+    fixed_cases, rng_cases = [], []
+    _random_cases(fixed, 1, seeds, fixed_cases)
+    _random_cases(rng, 1 if not thorough else 19, seeds, rng_cases)
     for name, data, lib in seeds:
         cases.append(Case(data, lib, (), "seed:" + name))
     # C'. reproducers of recorded findings: corpus/scanfuzz/repro/NAME.as, NAME.cmd (lib and extra flags),
@@ -589,7 +593,17 @@ def generate_cases(rng, thorough):
         for depth in BOMB_DEPTHS.get(name, BOMB_DEPTHS["default"]):
             ex = ("-M", "no-emax") if name == "errors" else ()
             cases.append(Case(f(depth), "aldor", ex, "bomb:%s:%d" % (name, depth), inv, regen=(name, depth)))
-    return cases, len(seeds)
+    # order of execution: recorded reproducers, seeds and bombs first; then the two random streams interleaved
+    # (so that a time budget cuts both alike)
+    k = max(1, len(rng_cases) // max(1, len(fixed_cases)))
+    it_f, it_r = iter(fixed_cases), iter(rng_cases)
+    mixed = []
+    while True:
+        chunk = [c for _, c in zip(range(200), it_f)] + [c for _, c in zip(range(200 * k), it_r)]
+        if not chunk:
+            break
+        mixed += chunk
+    return cases, mixed, len(seeds)
 
 def _random_cases(rng, mult, seeds, cases):
     emax = lambda: (("-M", "no-emax") if rng.random() < 0.4 else ())
@@ -719,20 +733,23 @@ def scan_lines(rng, thorough, kws=()):
     for k in kws:                                      # every row of tokInfoTable
         reqs += [b"z " + k + b" q\n", b"z _" + k + b" q\n", k + b"\n", b"z" + k + b"q\n", b"z " + k + k + b"\n", b"z " + k + b"x\n",
                  b"z " + k[:-1] + b" " + k[-1:] + b"\n", b"z " + k + b".5\n", b"z " + k + b"_\n.5\n"]
+    ncore_raw = len(reqs)                              # what follows is random and runs under a time budget
     for _ in range(600 if not thorough else 6000):
         reqs.append(b" ".join(rng.choice(kws) if rng.random() < 0.8 else rng.choice((b"_", b"x", b"\"s\"", b".5", b"\n", b"_\n")) for _ in range(rng.randint(1, 6))) + b"\n")
     alphabet = b"ab?%!_ \t\"-+.=:()1z\n|" + bytes([0xe9, 0x80, 0x01, 0x7f])
     for _ in range(3000 if not thorough else 40000):
         n = rng.choice((1, 2, 3, 4, 6, 9, 14))
         reqs.append(bytes(rng.choice(alphabet) for _ in range(n)) + (b"\n" if rng.random() < 0.8 else b""))
-    out, seen = [], set()
-    for r in reqs:
+    out, seen, ncore = [], set(), 0
+    for i, r in enumerate(reqs):
+        if i == ncore_raw:
+            ncore = len(out)
         r = r.replace(b"\0", b" ")                    # the includer cuts lines at NUL: outside the model
         # a line whose first non-blank character is # is a system command: outside the model
         r = b"\n".join((b"z" + l) if l.lstrip(b" \t").startswith(b"#") else l for l in r.split(b"\n"))
         if r and r not in seen:
             seen.add(r); out.append(r)
-    return out
+    return out, (ncore or len(out))
 
 def load_chartables():
     import importlib.util
@@ -741,7 +758,7 @@ def load_chartables():
     spec.loader.exec_module(m)
     return m
 
-def prepare(src_dir=None):
+def prepare_src(src_dir=None):
     """translator part: regenerate lean/AldorVerif/Gen/CharIndex.lean from the tree under check (called
     by common.run_parts before the Lean build; nothing is cached between runs)"""
     ct = load_chartables()
@@ -806,12 +823,21 @@ def correspondence(ctx, runner, pool):
     rows, enum, _ = ct.token_table(runner.src)
     kwstr = {enum["TK_START"] + i: st for i, (_, st, _) in enumerate(rows)}
     msgs = {"bad": msg_text("ALDOR_E_ScanBadChar", runner.src), "open": msg_text("ALDOR_E_ScanOpenString", runner.src)}
-    reqs = scan_lines(ctx.rng, ctx.tier == "thorough", list(kwstr.values()))
+    reqs, ncore = scan_lines(ctx.rng, ctx.tier == "thorough", list(kwstr.values()))
+    t0 = time.time()
+    impl = list(pool.map(lambda r: run_scan_dump(runner, r), reqs[:ncore]))
+    budget_s = CORR_BUDGET_S["thorough" if ctx.tier == "thorough" else "quick"]
+    for i in range(ncore, len(reqs), 1000):          # the random texts: as many as the time budget allows
+        if time.time() - t0 > budget_s:
+            break
+        impl += list(pool.map(lambda r: run_scan_dump(runner, r), reqs[i:i + 1000]))
+    nskipped = len(reqs) - len(impl)
+    reqs = reqs[:len(impl)]
     text = "\n".join("S " + r.hex() for r in reqs) + "\n"
     model, tags = common.split_model(common.run_model("scan", text))
     assert len(model) == len(reqs), (len(model), len(reqs))
-    impl = list(pool.map(lambda r: run_scan_dump(runner, r), reqs))
-    stats = {"lines": len(reqs), "mismatch": 0, "impl_faults": 0, "model_oob": 0, "prefix_only": 0}
+    stats = {"lines": len(reqs), "core_lines": ncore, "random_lines_skipped_for_time": nskipped, "mismatch": 0,
+             "impl_faults": 0, "model_oob": 0, "prefix_only": 0}
     cmd = "write the bytes to f.as; aldor -Nfile=<src>/aldor.conf -WTrt+sc f.as"
     for r, co, mo in zip(reqs, impl, model):
         mfault = mo.split()[-1:] == ["FAULT"]
@@ -888,12 +914,23 @@ def run_part(ctx, build):
     stats["scan_correspondence"] = correspondence(ctx, runner, pool)
     t_corr = time.time()
     # ---- 2 + 3. fuzz ---------------------------------------------------------------------
-    cases, nseeds = generate_cases(ctx.rng, thorough)
+    first, randoms, nseeds = generate_cases(ctx.rng, thorough)
     def go(c):
         c.rc, c.out, c.wall = runner.compile(c.data, c.lib, c.extra, c.files)
         c.cls = classify(c.rc, c.out, bool(c.invalid))
         return c
-    list(pool.map(go, cases))
+    list(pool.map(go, first))
+    # the random streams run in chunks under a wall-clock budget (a loaded machine explores less, it does
+    # not run longer); the reproducers, seeds and bombs above always run
+    budget_s = FUZZ_BUDGET_S["thorough" if thorough else "quick"]
+    cases, skipped = list(first), 0
+    for i in range(0, len(randoms), 400):
+        if time.time() - t_corr > budget_s:
+            skipped = len(randoms) - i
+            break
+        chunk = randoms[i:i + 400]
+        list(pool.map(go, chunk))
+        cases += chunk
     # a timeout under 16-fold parallel load proves nothing: run those again (each distinct input once, four at a
     # time) with at least three times the limit; only the ones that still do not finish are hangs
     slow = [c for c in cases if c.cls == "timeout"]
@@ -915,6 +952,15 @@ def run_part(ctx, build):
                     c.rc, c.out, c.wall = rc, out, wall
                     c.cls = classify(rc, out, bool(c.invalid))
     n_slow_ok = sum(1 for c in slow if c.cls != "timeout")
+    # exit status: Model/Exit.lean against the runs with a known number of errors (the `errors` bombs)
+    ex = [c for c in cases if c.kind.startswith("bomb:errors:") and isinstance(c.rc, int) and c.rc >= 0]
+    ns = [len(ERR_RE.findall(c.out)) for c in ex]
+    mo, xt = common.split_model(common.run_model("scan", "".join("X %d\n" % n for n in ns))) if ex else ([], [])
+    for c, n, m in zip(ex, ns, mo):
+        if str(c.rc) != m and (c.rc != 0) == (n > 0):
+            # (a status that is dishonest is a finding of its own class below)
+            ctx.corr_broken.append((NAME, "X %d  (%s, %d errors printed)" % (n, c.kind, n), str(c.rc), m))
+    stats["exit_correspondence"] = {"runs": len(ex), "errors": ns, "status": [c.rc for c in ex], "model": mo}
     t_fuzz = time.time()
     by_cls = {}
     kinds = {}
@@ -948,12 +994,18 @@ def run_part(ctx, build):
         groups.setdefault(s, []).append(c)
     # ---- minimise one representative per signature ------------------------------------------
     budget_tests = 400 if thorough else 90
+    deadline = time.time() + MINIMISE_BUDGET_S["thorough" if thorough else "quick"]
     def minimise_group(item):
         sig, cs = item
         c = cs[0]                                   # smallest input of the group
         cls = c.cls
+        if ctx._listed(sig) is not None:
+            # a recorded finding: its minimised reproducer is in corpus/scanfuzz/repro already
+            return sig, c, c.data, "not minimised again (recorded finding)"
         cheap = cls not in FAULTY and cls != "timeout"
         def still(d):
+            if time.time() > deadline:
+                return False                        # out of time: keep what has been reached
             rc, out, _ = runner.compile(d, c.lib, c.extra, c.files)
             if classify(rc, out, bool(c.invalid)) != cls:
                 return False
@@ -998,7 +1050,7 @@ def run_part(ctx, build):
     pool.shutdown()
     stats.update({"runs": len(cases), "seeds": nseeds, "classes": by_cls, "generators": kinds, "failing": len(failing),
                   "signature_checked": len(chosen), "signatures": len(groups), "exit_status_dishonest_unclassified": dishonest,
-                  "timeouts_that_finished_when_run_alone": n_slow_ok, "rerun_limit_s": relimit,
+                  "random_inputs_skipped_for_time": skipped, "timeouts_that_finished_when_run_alone": n_slow_ok, "rerun_limit_s": relimit,
                   "walls": {"correspondence": round(t_corr - t_start, 1), "fuzz": round(t_fuzz - t_corr, 1),
                             "signatures": round(t_sig - t_fuzz, 1), "minimise": round(t_min - t_sig, 1)},
                   "slowest_run_s": round(max(c.wall for c in cases), 2), "table": table})
